@@ -18,6 +18,8 @@ static VAlloc va;
 // fstat as seen by zix_file_equals can be given faked device / inode numbers ("feqino"): linker --wrap=fstat
 static int   fake_stat;            // 0 = off; otherwise the n-th fstat call (1, 2) gets fake_dev[n-1] / fake_ino[n-1]
 static long  fake_dev[2], fake_ino[2];
+static int   fake_size;            // 0 = off; otherwise the n-th fstat call (1, 2) reports st_size 0 when fake_zero[n-1] is set
+static int   fake_zero[2];
 int __real_fstat(int fd, struct stat* sb);
 int __wrap_fstat(int fd, struct stat* sb);
 int __wrap_fstat64(int fd, struct stat* sb);
@@ -30,10 +32,46 @@ wrap_fstat_common(int fd, struct stat* sb)
     sb->st_ino = (ino_t)fake_ino[fake_stat - 1];
     ++fake_stat;
   }
+  if (!rc && fake_size >= 1 && fake_size <= 2) {
+    if (fake_zero[fake_size - 1]) sb->st_size = 0;   // as procfs text files, FIFOs and devices do
+    ++fake_size;
+  }
   return rc;
 }
 int __wrap_fstat(int fd, struct stat* sb) { return wrap_fstat_common(fd, sb); }
 int __wrap_fstat64(int fd, struct stat* sb) { return wrap_fstat_common(fd, sb); }
+// mkdir as called by zix_create_directories can be preceded by a racing creator ("mkdirsrace"): linker --wrap=mkdir
+static int      racing;               // 1 while the library runs under a racer
+static unsigned race_dirs, race_files;   // bit k: before the k-th mkdir call another process creates the same path as a directory / a file
+static int      n_mkdir;
+int __real_mkdir(const char* path, mode_t mode);
+int __wrap_mkdir(const char* path, mode_t mode);
+int
+__wrap_mkdir(const char* path, mode_t mode)
+{
+  if (racing) {
+    const int k = n_mkdir++;
+    const int saved = errno;
+    if (k < 32 && (race_dirs >> k & 1u)) { if (__real_mkdir(path, 0777)) {} }
+    else if (k < 32 && (race_files >> k & 1u)) { const int fd = open(path, O_WRONLY | O_CREAT | O_EXCL, 0644); if (fd >= 0) close(fd); }
+    errno = saved;
+  }
+  return __real_mkdir(path, mode);
+}
+
+static unsigned
+bits_of(const char* list)
+{
+  unsigned b = 0;
+  if (!strcmp(list, "-")) return 0;
+  for (const char* p = list; *p;) {
+    const unsigned k = (unsigned)strtoul(p, (char**)&p, 10);
+    if (k < 32) b |= 1u << k;
+    if (*p == ',') ++p;
+  }
+  return b;
+}
+
 static char   scratch[PATH_MAX];   // .../S
 static char   work[PATH_MAX];      // .../S/w  (the working directory)
 
@@ -202,6 +240,25 @@ main(int argc, char** argv)
       put_tree();
       putchar('\n');
       free(path);
+    } else if (!strcmp(tok[0], "mkdirsrace") && n >= 5) {
+      // mkdirsrace <dirs> <files> <setup...> | <path>: before the listed mkdir calls (0-based, "-" = none) another process
+      // creates the same path as a directory / as a file
+      int bar = 0;
+      setup(n, tok, 3, &bar);
+      if (bar + 1 >= n) { puts("bad-op"); continue; }
+      char* path = expand(tok[bar + 1]);
+      if (path[0] == '/' && strncmp(path, scratch, strlen(scratch))) { puts("bad-op"); free(path); continue; }
+      race_dirs = bits_of(tok[1]); race_files = bits_of(tok[2]); n_mkdir = 0; racing = 1;
+      const ZixStatus st = zix_create_directories(&va.base, path);
+      racing = 0;
+      struct stat sb;
+      const int isdir = path[0] && !stat(path, &sb) && S_ISDIR(sb.st_mode);
+      printf("st=%d isdir=%d", (int)st, isdir);
+      if ((st == ZIX_STATUS_SUCCESS) != (isdir != 0)) printf(" SPEC-FAIL:success-iff-directory");
+      printf(" fds=%d | ", count_fds() == fds0);
+      put_tree();
+      putchar('\n');
+      free(path);
     } else if (!strcmp(tok[0], "feq") && n == 6) {
       const size_t la = strtoul(tok[1], NULL, 10), lb = strtoul(tok[2], NULL, 10);
       const long   diff = atol(tok[3]);
@@ -225,6 +282,43 @@ main(int argc, char** argv)
       if (r1 != same || r2 != same) printf(" SPEC-FAIL:equals-iff-identical-bytes");
       printf(" fds=%d\n", count_fds() == fds0);
       free(a); free(b);
+    } else if (!strcmp(tok[0], "feqz") && n == 7) {
+      // feqz <lenA> <lenB> <diff-pos|-1> <zeroA> <zeroB> <alloc>: fstat reports st_size 0 for A and/or B although it has content
+      const size_t la = strtoul(tok[1], NULL, 10), lb = strtoul(tok[2], NULL, 10);
+      const long   diff = atol(tok[3]);
+      unsigned char* a = pattern(la);
+      unsigned char* b = pattern(lb);
+      if (diff >= 0 && (size_t)diff < lb) b[diff] ^= 1;
+      write_file("A", a, la);
+      write_file("B", b, lb);
+      #define ARM_FAULT6() do { if (!strcmp(tok[6], "fail")) va.fail_from = va.n_requests; else if (!strcmp(tok[6], "fail0")) va.fail_at = va.n_requests; \
+                                else if (!strcmp(tok[6], "fail1")) va.fail_at = va.n_requests + 1; } while (0)
+      fake_zero[0] = atoi(tok[4]); fake_zero[1] = atoi(tok[5]); fake_size = 1;
+      ARM_FAULT6();
+      const bool r1 = zix_file_equals(&va.base, "A", "B");
+      va.fail_from = -1; va.fail_at = -1;
+      fake_zero[0] = atoi(tok[5]); fake_zero[1] = atoi(tok[4]); fake_size = 1;
+      ARM_FAULT6();
+      const bool r2 = zix_file_equals(&va.base, "B", "A");
+      va.fail_from = -1; va.fail_at = -1;
+      fake_size = 0;
+      const bool same = la == lb && !memcmp(a, b, la);
+      printf("eq=%d sym=%d", r1, r2);
+      if (r1 != same || r2 != same) printf(" SPEC-FAIL:equals-iff-identical-bytes");
+      printf(" fds=%d\n", count_fds() == fds0);
+      free(a); free(b);
+    } else if (!strcmp(tok[0], "feqproc")) {
+      // a real file that reports no size: /proc/version against a copy of it and against an empty file, both ways
+      FILE* pv = fopen("/proc/version", "rb");
+      static unsigned char buf[65536];
+      const size_t got = pv ? fread(buf, 1, sizeof(buf), pv) : 0;
+      if (pv) fclose(pv);
+      if (!got) { printf("eq=1100 fds=1\n"); continue; }   // no procfs here: nothing to observe
+      write_file("A", buf, got);
+      write_file("B", buf, 0);
+      const bool r1 = zix_file_equals(&va.base, "/proc/version", "A"), r2 = zix_file_equals(&va.base, "A", "/proc/version"),
+                 r3 = zix_file_equals(&va.base, "B", "/proc/version"), r4 = zix_file_equals(&va.base, "/proc/version", "B");
+      printf("eq=%d%d%d%d fds=%d\n", r1, r2, r3, r4, count_fds() == fds0);
     } else if (!strcmp(tok[0], "feqino") && n == 6) {
       // feqino <devA> <inoA> <devB> <inoB> <same-content 0|1>: two different files whose fstat results carry the given
       // device (-1 = the real one) and inode numbers
